@@ -75,7 +75,15 @@ pub fn gen(seed: u64, thorough: bool) {
         e.condition.set_phoneme_alignment_flag(align);
         let n = rng.range(1, 4);
         let recombine = rng.chance(0.5);
-        let lines = src.labels(&mut rng, n, recombine);
+        let mut lines = src.labels(&mut rng, n, recombine);
+        // every third case: a label line repeated right after itself (a front end emits identical full-context labels for, e.g.,
+        // a doubled pause) — each is a label of its own in every input form (seeded change C17i: the owned-vector form dedup'ed)
+        if i % 3 == 2 && n < 4 {
+            let k = rng.below(n);
+            let dup = lines[k].clone();
+            lines.insert(k, dup);
+        }
+        let n = lines.len();
         let refs: Vec<&str> = lines.iter().map(|s| s.as_str()).collect();
         let parsed: Vec<jlabel::Label> = lines.iter().map(|l| l.parse().unwrap()).collect();
         let w_slice = e.synthesize(&refs[..]).unwrap();
